@@ -396,6 +396,26 @@ fn report_proxy_agent_aggregate_status(
     }
 }
 
+/// Verification hook (add-only, compiled only with `--cfg azure_guestproxyagent_verif`): one health report of the
+/// monitor loop, exactly as `monitor_thread` performs it every 15 seconds, so that a harness can drive the loop
+/// poll by poll without the real clock.
+#[cfg(azure_guestproxyagent_verif)]
+pub fn verif_report_step(
+    proxyagent_file_version_in_extension: &String,
+    status: &mut StatusObj,
+    status_state_obj: &mut common::StatusState,
+    restored_in_error: &mut bool,
+    service_state: &mut ServiceState,
+) {
+    report_proxy_agent_aggregate_status(
+        proxyagent_file_version_in_extension,
+        status,
+        status_state_obj,
+        restored_in_error,
+        service_state,
+    );
+}
+
 fn extension_substatus(
     proxy_agent_aggregate_status_top_level: GuestProxyAgentAggregateStatus,
     proxyagent_file_version_in_extension: &String,
